@@ -274,14 +274,14 @@ def check(plan, r):
                         fail = SE.conforms(v, T, ns)
                         if fail:
                             fail.lenient_fail = SE.conforms(v, T, ns, 0, True)
-                            viol("C01.admits", admit_cause(fail, f, pos, T, rec_active, o, ps, src), dict(site, why=fail.why, value_type=type(fail.value).__name__),
+                            viol("C01.admits", admit_cause(fail, f, pos, T, rec_active, o, ps, src, lp.spec["pkg"]), dict(site, why=fail.why, value_type=type(fail.value).__name__),
                                  "%s %s: annotation %s does not admit an observed value (%r)" % (qn, pos, src[:200], fail))
                             break
                     continue
                 fail = check_return(f, T, o, ns)
                 if fail:
                     fail.lenient_fail = check_return(f, T, o, ns, True)
-                    viol("C01.admits", admit_cause(fail, f, pos, T, rec_active, o, ps, src), dict(site, why=fail.why, value_type=type(fail.value).__name__),
+                    viol("C01.admits", admit_cause(fail, f, pos, T, rec_active, o, ps, src, lp.spec["pkg"]), dict(site, why=fail.why, value_type=type(fail.value).__name__),
                          "%s return: annotation %s does not admit an observed value (%r)" % (qn, src[:200], fail))
     return V, evaluated, probes
 
@@ -351,7 +351,7 @@ def reaches_duplicate(src, ps):
     return False
 
 
-def admit_cause(fail, f, pos, T, rec_active, o, ps=None, src=""):
+def admit_cause(fail, f, pos, T, rec_active, o, ps=None, src="", pkg_root="simpkg_"):
     if ps is not None and ps.dup_typed_dicts and reaches_duplicate(src, ps):
         return "typeddict_class_name_collision"
     if f["body"] == "coro" and pos == "return" and o.get("suspended") and typing.get_origin(T) in (collections.abc.Iterator, collections.abc.Generator):
@@ -359,8 +359,14 @@ def admit_cause(fail, f, pos, T, rec_active, o, ps=None, src=""):
     lf = getattr(fail, "lenient_fail", fail)
     if rec_active and lf is None:
         return "remove_empty_containers_drops_witnessed_empty"
-    if fail.why.startswith("field annotation does not evaluate") or (rec_active and lf is not None and lf.why.startswith("field annotation does not evaluate")):
-        return "typeddict_field_unresolvable"
+    for x in (fail, lf if rec_active else None):
+        # listed finding: a user class inside a generated TypedDict body is written with its module path (pkg.mod.K1), which nothing
+        # imports.  Any other name a field cannot resolve (a typing generic, a class of the stub's own module) is not explained by it.
+        if x is not None and x.why.startswith(SE.UNEVALUABLE) and ("DUMMY_NAME" in str(x.typ) or "ForwardRef(" in str(x.typ)):
+            # listed finding (same defect as under C01.evaluates): an anonymous TypedDict below DefaultDict / Iterator / Type, here in a field
+            return "typeddict_under_unsupported_generic"
+        if x is not None and x.why.startswith(SE.UNEVALUABLE) and "NameError" in x.why and ("name '%s'" % pkg_root) in x.why:
+            return "typeddict_field_unresolvable"
     return None
 
 
